@@ -90,7 +90,7 @@ let seq_case line =
          let o = { o_entry = EApplyConfig; o_flags = v2; o_payload = [] } in
          (* the value append_only has in the new config *)
          let target = next_ao { st_ao = ao; st_names = [] } o Done in
-         let s' = config_step config_set_before_save config_cold_before_hot fault target
+         let s' = config_step config_set_before_save config_restricts_on_failure config_cold_before_hot fault target
                     { c_cold = !cold; c_hot = !hot; c_handle = ao } in
          cold := s'.c_cold; hot := (if mode = 1 then s'.c_hot else s'.c_cold);
          if on_kept || fault <> NoFault then kept := Some s'.c_handle
@@ -100,6 +100,15 @@ let seq_case line =
         (if cls = [] then "-" else String.concat "," cls)
     end) in
   String.concat " ; " outs
+
+(* mode ix: `<n> <blobs of pack 1> .. <blobs of pack n> <finalize calls>` -> index files written *)
+let ix_case line =
+  let t = toks line in
+  let n = ni t in
+  let adds = ntimes n (fun () -> IxAdd (n_of_int (ni t), false)) in
+  let k = ni t in
+  string_of_int (int_of_n (ix_run indexer_save_needs_packs indexer_max_count { ix_count = N0; ix_packs = N0 }
+                             (adds @ List.init k (fun _ -> IxFinalize))))
 
 (* mode table: the static facts per entry, for the evidence *)
 let table_case _ =
@@ -111,4 +120,4 @@ let table_case _ =
 
 let () =
   let mode = if Array.length Sys.argv > 2 then Sys.argv.(2) else "seq" in
-  main_loop (if mode = "wrap" then wrap_case else if mode = "table" then table_case else seq_case)
+  main_loop (if mode = "wrap" then wrap_case else if mode = "table" then table_case else if mode = "ix" then ix_case else seq_case)
